@@ -311,7 +311,8 @@ func (u *Unit) execInstr(fr *Frame, st *State, in ssa.Instruction) {
 			nth = IntLit(int64(len(u.sends[id]) - 1))
 		}
 		u.event(fr, st, "send", map[string]Val{"value": v, "blocking": &Scalar{T: TTrue, Typ: types.Typ[types.Bool]},
-			"cap": &Scalar{T: capT, Typ: types.Typ[types.Int]}, "earlier": &Scalar{T: nth, Typ: types.Typ[types.Int]}}, where)
+			"cap": &Scalar{T: capT, Typ: types.Typ[types.Int]}, "earlier": &Scalar{T: nth, Typ: types.Typ[types.Int]},
+			"guard": &Scalar{T: u.eng.strID(""), Typ: types.Typ[types.String]}}, where)
 
 	case *ssa.Select:
 		u.execSelect(fr, st, x, where)
@@ -916,6 +917,16 @@ func (u *Unit) execSelect(fr *Frame, st *State, x *ssa.Select, where string) {
 	vs := []Val{&Scalar{T: idx, Typ: types.Typ[types.Int]}, nil}
 	recvOK := TTrue
 	base := st.pc
+	// guard: the struct field a receive case of this select reads its channel from (a stop signal next to a send)
+	guard := ""
+	for _, s := range x.States {
+		if s.Dir == types.RecvOnly {
+			if cs, ok := u.get(fr, s.Chan).(*Scalar); ok && strings.HasPrefix(cs.Origin, "field:") && guard == "" {
+				guard = strings.TrimPrefix(cs.Origin, "field:")
+			}
+		}
+	}
+	guardV := &Scalar{T: u.eng.strID(guard), Typ: types.Typ[types.String]}
 	for i, s := range x.States {
 		if s.Dir == types.SendOnly {
 			// a send case: the send happens iff this case is chosen
@@ -928,7 +939,7 @@ func (u *Unit) execSelect(fr *Frame, st *State, x *ssa.Select, where string) {
 				fmt.Sscanf(cs.Origin, "chan:%d", &id)
 				u.sends[id] = append(u.sends[id], sendRec{sub.pc, v})
 			}
-			u.event(fr, sub, "send", map[string]Val{"value": v, "blocking": &Scalar{T: BoolLit(x.Blocking), Typ: types.Typ[types.Bool]}}, where)
+			u.event(fr, sub, "send", map[string]Val{"value": v, "blocking": &Scalar{T: BoolLit(x.Blocking), Typ: types.Typ[types.Bool]}, "guard": guardV}, where)
 			for k, g := range sub.ghost {
 				if og, had := st.ghost[k]; !had || og.S != g.S {
 					if !had {
